@@ -337,3 +337,38 @@ theorem readWord_letters (t : CatTable) (w rest : List Nat) (hw : ∀ c ∈ w, w
     rw [List.cons_append, readWord]; split <;> simp_all
 
 end PlasVerif.Proofs.Tokenizer
+
+namespace PlasVerif.Proofs.Tokenizer
+open PlasVerif.Model.Catcodes PlasVerif.Model.Tokenizer
+
+@[simp] theorem tokFrom_nil (t : CatTable) (st : St) (p : Bool) : tokFrom t st p [] = [] :=
+  tok_eof _ _ _ _ (nextChar_nil t)
+
+/-- the whole token list is the first pulled token followed by the tokens of the state after it:
+    pulling lazily and tokenizing eagerly agree while the table stays fixed -/
+theorem tokFrom_step (t : CatTable) (st : St) (p : Bool) (cs : List Nat) :
+    tokFrom t st p cs = match tokStep t st p cs with
+      | none => []
+      | some (tok, st', p', cs') => tok :: tokFrom t st' p' cs' := by
+  fun_induction tokStep t st p cs <;> rw [tokFrom] <;> split <;> simp_all <;> (try (split <;> simp_all))
+  all_goals (first | omega | (obtain ⟨_, _, h3⟩ := ‹_ ∧ _ ∧ _ = _›; subst h3; exact ⟨rfl, rfl⟩))
+
+
+/-- with no table change a schedule of pulls yields exactly the eager token list -/
+theorem pullN_tokFrom (t : CatTable) (n : Nat) : ∀ (st : St) (p : Bool) (cs : List Nat),
+    (pullN t n st p cs).1 ++ tokFrom t (pullN t n st p cs).2.1 (pullN t n st p cs).2.2.1 (pullN t n st p cs).2.2.2
+      = tokFrom t st p cs := by
+  induction n with
+  | zero => intro st p cs; simp [pullN]
+  | succ n ih =>
+    intro st p cs
+    rw [tokFrom_step t st p cs]
+    simp only [pullN]
+    cases h : tokStep t st p cs with
+    | none => simp [tok_eof _ _ _ _ (nextChar_nil t)]
+    | some r =>
+      obtain ⟨tok, st', p', cs'⟩ := r
+      simp only [List.cons_append]
+      rw [ih st' p' cs']
+
+end PlasVerif.Proofs.Tokenizer
